@@ -812,7 +812,9 @@ Section StmtT.
       unfold modify in E3. inversion E3; subst. unfold room at 1. cbn [loc set_loc loc_idx].
       change (cur_toks (set_loc _ s1)) with (cur_toks s1). lia.
     - (* ELSE: the loop ends *)
-      destruct (bind_ok_inv _ _ _ _ _ E2) as (x & s2 & E3 & E4). inversion E4.
+      destruct (bind_ok_inv _ _ _ _ _ E2) as (x & s2 & E3 & E4).
+      destruct (bind_ok_inv _ _ _ _ _ E4) as (e & s3 & E5 & E6).
+      destruct (bind_ok_inv _ _ _ _ _ E6) as (y & s4 & E7 & E8). inversion E8.
   Qed.
 
   Lemma room_next_data s : room (snd (next_data_element s)) = room s /\ (forall e s', next_data_element s = (Ok e, s') -> wf s -> wf s').
